@@ -162,14 +162,28 @@ def cfg_sites(cfg):
     return out
 
 
-def param_vectors(cfg, D, block=None):
+LITE_UB = [0, 2, 3, 6]         # guess, upper, lower-1ulp, far/invalid
+LITE_G = [0, 2, 4]             # guess, mu+2sd, far/invalid
+
+
+def param_vectors(cfg, D, block=None, lite=False):
     """index vectors (tuples) over the sites' alphabets with at most D
-    deviations from the all-guess vector; block=(b) keeps only vectors whose
-    first index is b"""
+    deviations from the all-guess vector; block=b keeps only vectors whose
+    first index is b; lite restricts every alphabet to {guess, upper bound,
+    1 ulp below lower, far/invalid} (+ the overlap boundary values)"""
     ss = cfg_sites(cfg)
-    axes = {s: list(range(len(site_alphabet(s, k)))) for s, k in ss}
-    for vec in deviations(axes, D):
-        t = tuple(vec[s] for s, _ in ss)
+    axes = {}
+    for s, k in ss:
+        n = len(site_alphabet(s, k))
+        if lite:
+            base = LITE_G if k == "G" else LITE_UB
+            nb = 5 if k == "G" else 7
+            axes[s] = base + list(range(nb, n))
+        else:
+            axes[s] = list(range(n))
+    pos = {s: list(range(len(v))) for s, v in axes.items()}
+    for vec in deviations(pos, D):
+        t = tuple(axes[s][vec[s]] for s, _ in ss)
         if block is not None and t[0] != block:
             continue
         yield t
@@ -182,6 +196,7 @@ def cases(tier, seed):
         cfg = {k: CFG_AXES[k][i] for k, i in vec.items()}
         ndev = sum(1 for i in vec.values() if i)
         nsites = len(cfg_sites(cfg))
+        lite = False
         if tier == "thorough":
             if ndev <= 1:
                 D = nsites if nsites <= 4 else 3
@@ -189,13 +204,16 @@ def cases(tier, seed):
                 for b in range(nb):
                     out.append({"id": "cfg:%s:D=%d:b=%d" % (cfg_id(cfg), D, b),
                                 "kind": "cfg", "cfg": cfg, "D": D,
-                                "block": b})
+                                "block": b, "lite": False})
                 continue
-            D = 2
+            D = 1
         else:
-            D = 2 if ndev <= 1 else 1
-        out.append({"id": "cfg:%s:D=%d" % (cfg_id(cfg), D), "kind": "cfg",
-                    "cfg": cfg, "D": D, "block": None})
+            D = 2 if ndev == 0 else 1
+            lite = ndev == 2
+        out.append({"id": "cfg:%s:D=%d%s" % (cfg_id(cfg), D,
+                                              ":lite" if lite else ""),
+                    "kind": "cfg", "cfg": cfg, "D": D, "block": None,
+                    "lite": lite})
     # every prior-kind pattern on the default configuration (thorough)
     if tier == "thorough":
         for p in ALL_PATTERNS:
@@ -204,14 +222,15 @@ def cases(tier, seed):
             cfg = {"kind": "alpha-prior", "noise": "model", "optics": "model",
                    "priors": p, "data": "grid"}
             out.append({"id": "cfg:%s:D=2" % cfg_id(cfg), "kind": "cfg",
-                        "cfg": cfg, "D": 2, "block": None})
+                        "cfg": cfg, "D": 2, "block": None, "lite": False})
     # per-channel noise given as a dict on the model (dedicated cases)
     for kind in ("alpha-prior", "exact"):
         for noise in ("dict", "dict-prior"):
             cfg = {"kind": kind, "noise": noise, "optics": "model",
                    "priors": "UUUU", "data": "noisy"}
             out.append({"id": "dictnoise:%s:%s" % (kind, noise),
-                        "kind": "cfg", "cfg": cfg, "D": 1, "block": None})
+                        "kind": "cfg", "cfg": cfg, "D": 1, "block": None,
+                        "lite": False})
     # pixels=k path under every scripted selection
     shapes = [(2, 2)] if tier == "quick" else [(2, 2), (2, 3)]
     for shape in shapes:
@@ -551,7 +570,7 @@ def _is_missing(e):
 # ---------------------------------------------------------------------------
 # one parameter vector
 # ---------------------------------------------------------------------------
-def check_vector(c, ck, vec, tag, acc=None):
+def check_vector(c, ck, vec, tag, acc=None, lite=False):
     vals = values_of(c, vec)
     pars = pars_of(c, vals)
     what = "%s vals=%r" % (tag, vals)
@@ -566,17 +585,17 @@ def check_vector(c, ck, vec, tag, acc=None):
     ck.trans += 1
     ck.true("lnprior-not-nan", lp == lp and lp != float("inf"),
             "lnprior is %r (%s)" % (lp, what))
-    if cons is None:
+    if cons is None and in_sup and valid:
         ck.metric("constraint-boundary-skipped", 1.0)
         return
-    exp_neginf = (not in_sup) or (not valid) or (not cons)
+    exp_neginf = (not in_sup) or (not valid) or (cons is False)
     if exp_neginf:
         why = []
         if not in_sup:
             why.append("outside-support")
         if not valid:
             why.append("invalid-scatterer")
-        if not cons:
+        if cons is False:
             why.append("constraint")
         ck.true("lnprior-neginf:" + "+".join(why),
                 lp == NEG_INF, "lnprior = %r, expected -inf (%s) (%s)" %
@@ -634,7 +653,7 @@ def check_vector(c, ck, vec, tag, acc=None):
             acc.append("S")
         # the likelihood itself does not depend on the prior: check it on
         # the single-deviation vectors whose scatterer is valid
-        if valid and ndev <= 1 and nexp[0] == "sd":
+        if valid and ndev <= 1 and nexp[0] == "sd" and not lite:
             _check_like(c, ck, vals, pars, what, nexp)
         return
     # ---- finite prior: likelihood and forward model ----------------------
@@ -756,8 +775,10 @@ def _run_cfg(case, ck):
         return "names"
     acc = []
     nvec = 0
-    for vec in param_vectors(cfg, case["D"], case.get("block")):
-        check_vector(c, ck, vec, "vec=%s" % (list(vec),), acc=acc)
+    for vec in param_vectors(cfg, case["D"], case.get("block"),
+                             case.get("lite", False)):
+        check_vector(c, ck, vec, "vec=%s" % (list(vec),), acc=acc,
+                     lite=case.get("lite", False))
         nvec += 1
     ck.metric("vectors-per-case", nvec)
     # ---- list form == dict form; LnpostWrapper ---------------------------
@@ -956,7 +977,8 @@ def coverage_extra(cases, results):
     for c in cases:
         if c["kind"] == "cfg":
             nvec += sum(1 for _ in param_vectors(c["cfg"], c["D"],
-                                                 c.get("block")))
+                                                 c.get("block"),
+                                                 c.get("lite", False)))
     npix = sum(1 for c in cases if c["kind"] == "pixels")
     return {"configurations": ncfg, "parameter_vectors": nvec,
             "pixel_selection_cases": npix,
